@@ -3,7 +3,8 @@
    Model/Engines.v (entry points, .aux files, READ) over Model/Bst.v (the interpreter) and
    Model/Citations.v (citation resolution). *)
 From Pybtex Require Import Base.Prelude Base.PyChar Base.PyStr Model.BibtexStr Model.Wrap Model.Bst Model.Citations Model.Engines
-  Proofs.EnginesSort Proofs.Engines Proofs.EnginesExec Proofs.EnginesMeta Proofs.EnginesOrder Proofs.EnginesProbe.
+  Proofs.EnginesSort Proofs.Engines Proofs.EnginesExec Proofs.EnginesMeta Proofs.EnginesOrder Proofs.EnginesProbe Proofs.EnginesAux.
+From Pybtex Require Model.Aux.
 From Coq Require Import Permutation Sorted.
 
 (* Driving the engine through an .aux file = the equivalent explicit call, byte for byte: whenever the
@@ -27,6 +28,46 @@ Theorem aux_equals_explicit : forall fmt_name cw fuel fs aux style bf m ad sty d
   end.
 Proof. exact make_bibliography_explicit. Qed.
 Print Assumptions aux_equals_explicit.
+
+(* The .aux reader of Model/Engines.v and the validated model of pybtex/auxfile.py (Model/Aux.v, property C20)
+   are the same reader: on corresponding file systems (an FAux file = its clean lines, each followed by a line end;
+   `fs_rel`) they return the same style, database names, citations, canonical-key table and number of reports
+   (`agree`), and the simplified one fails only when the real one raises.  OutOfFuel = the simplified reader
+   declines (nesting deeper than its bound, or a file that is no .aux file is \@input). *)
+Theorem aux_reader_simulation : forall fs afs, fs_rel fs afs -> forall d f,
+  match aux_parse_file d fs f with
+  | Ok ad => exists a, Aux.parse_aux (S d) afs Aux.Capture f = Aux.Ret a /\ agree ad a
+  | PyErr _ _ => exists e s, Aux.parse_aux (S d) afs Aux.Capture f = Aux.Raise e s
+  | OutOfFuel => True
+  | Crash => False
+  end.
+Proof. exact reader_sim. Qed.
+Print Assumptions aux_reader_simulation.
+Theorem aux_reader_bridge : forall fs afs, fs_rel fs afs -> forall d f ad,
+  aux_parse_file d fs f <> OutOfFuel ->
+  (aux_parse_file d fs f = Ok ad <-> exists a, Aux.parse_aux (S d) afs Aux.Capture f = Aux.Ret a /\ agree ad a).
+Proof. exact reader_bridge. Qed.
+Print Assumptions aux_reader_bridge.
+
+(* aux_equals_explicit about the REAL reader: what C20's theorems (citations_spec, style_is_first,
+   data_is_first_split, reported_errors_spec ...) say about `a` is what make_bibliography hands on. *)
+Theorem aux_equals_explicit_real_reader : forall fmt_name cw fuel fs afs aux style bf m a sty data,
+  fs_rel fs afs -> aux_parse_file aux_depth fs aux <> OutOfFuel ->
+  Aux.parse_aux (S aux_depth) afs Aux.Capture aux = Aux.Ret a ->
+  Aux.a_data a = Some data ->
+  (match style with Some s => Some s | None => Aux.a_style a end) = Some sty ->
+  let fmt := match bf with Some f => f | None => 0 end in
+  match format_from_files fmt_name cw fuel fs (map (fun n => BName (n ++ suffix_of fmt)) data) sty
+                          (Some (Aux.a_cits a)) bf m None false with
+  | Ok o => exists bbl, o = mkOut fs (Some bbl) (o_reports o) /\
+            make_bibliography fmt_name cw fuel fs aux style bf m =
+            Ok (mkOut (fs_write fs (splitext_root aux ++ s_bbl) bbl) None (length (Aux.a_errs a) + o_reports o))
+  | PyErr c l => make_bibliography fmt_name cw fuel fs aux style bf m = PyErr c l
+  | Crash => make_bibliography fmt_name cw fuel fs aux style bf m = Crash
+  | OutOfFuel => make_bibliography fmt_name cw fuel fs aux style bf m = OutOfFuel
+  end.
+Proof. exact make_bibliography_real_reader. Qed.
+Print Assumptions aux_equals_explicit_real_reader.
 
 (* What an .aux file (without \@input) says: its citations are the comma-separated pieces of its
    \citation lines, in order; its style / database names those of the FIRST \bibstyle / \bibdata line. *)
@@ -235,6 +276,13 @@ a
     = Some [(S_ "doc.bbl", S_ "Yb
 ")].
 Proof. vm_compute. split; [eexists; repeat split|split; reflexivity]. Qed.
+
+Example real_reader_example :
+  option_map (fun a => (Aux.a_cits a, Aux.a_style a, Aux.a_data a, length (Aux.a_errs a)))
+    (match Aux.parse_aux (S aux_depth) (afs_of ex_fs) Aux.Capture (S_ "doc.aux") with Aux.Ret a => Some a | _ => None end)
+  = Some ([S_ "b"; S_ "a"], Some (S_ "s"), Some [S_ "db"], 0) /\
+  is_ok (aux_parse_file aux_depth ex_fs (S_ "doc.aux")) = true.
+Proof. vm_compute. auto. Qed.
 
 Example uncited_example :
   never_wanted [nth 0 ex_db (mkB [] [] []); nth 2 ex_db (mkB [] [] [])] [S_ "b"; S_ "a"] (S_ "u") /\
